@@ -138,6 +138,23 @@ fn run(args: &[String]) -> String {
             };
             if r.is_zero() { "ok:inf".into() } else { format!("ok:{}", hex::encode(r.to_bytes_be())) }
         }
+        "sm2_fresh_threads" => {
+            // counterexample SEARCH only: first scalars of several fresh threads (and of this one) must all differ
+            let mut hs = vec![];
+            for _ in 0..3 {
+                hs.push(std::thread::spawn(|| {
+                    let mut v = vec![];
+                    for _ in 0..2 { if let Ok((_, sk)) = gm_sm2::key::gen_keypair() { v.push(sk.to_hex_string()); } }
+                    v
+                }));
+            }
+            let mut all: Vec<String> = vec![];
+            for _ in 0..2 { if let Ok((_, sk)) = gm_sm2::key::gen_keypair() { all.push(sk.to_hex_string()); } }
+            for hd in hs { all.extend(hd.join().unwrap_or_default()); }
+            let n = all.len();
+            let mut s = all.clone(); s.sort(); s.dedup();
+            if s.len() != n { format!("dup:{}of{}", n - s.len(), n) } else { format!("ok:distinct{}", n) }
+        }
         "sm2_key_forms" => {
             // d (32 bytes hex) -> every textual / binary form of the key pair decoded again: "ok:<fields>" where each field is 1 (round trip
             // returned the same key) or 0
